@@ -70,7 +70,7 @@ def check(ctx):
         if i >= 0:
             j = t.find(";.String::push(')')", i)
             seg = t[i:j if j > 0 else len(t)]
-            ok = "(Option::is_some(Peekable::peek(" in seg and "||(Vec::len(" in seg and "fields)=='1'))" in seg
+            ok = "(Option::is_some(Peekable::peek(" in seg and "||(slice::len(" in seg and "fields)=='1'))" in seg
         ctx.expect(ok, "C13.3", nm, fn["sp"], "comma pushed iff peek().is_some() || len == 1 (one-element tuples keep their comma)", "tuple comma rule changed in " + fnsuf)
     # K1 primitive names
     pf = q.fn1(P, "description::primitive_type_description", D)
@@ -89,6 +89,7 @@ def check(ctx):
                 expect_term(ctx, "C13.2", "prim-name/" + v, arm, Np.term(arm["body"]), exp, "%s is called %s" % (v, exp))
     # K14 Box literal agreement across crates
     lits = []
+    lit_crates = set()
     for c, b in P.all_bodies(DR.LIBS):
         if "body" not in b or q.derived(b):
             continue
@@ -97,8 +98,9 @@ def check(ctx):
                 a = strip(n["args"][0])
                 if a.get("k") == "Lit":
                     lits.append((cshort(b["path"]), a["v"]))
+                    lit_crates.add(b["path"].split("::")[0])
     vals = {v for _f, v in lits}
-    ctx.expect(vals == {"Box<"} and len(lits) >= 3, "C13.1", "box-literal-agreement", "", "all %d Box detections (%s) use the same literal `Box<`" % (len(lits), sorted({f for f, _ in lits})),
+    ctx.expect(vals == {"Box<"} and len(lit_crates) >= 2, "C13.1", "box-literal-agreement", "", "all %d Box detections (%s) use the same literal `Box<`" % (len(lits), sorted({f for f, _ in lits})),
                "Box detection literals differ: %s" % lits)
     # policies
     fn = q.fn1(P, "description::ty_description", D)
